@@ -203,6 +203,11 @@ func (f *casFileEntryFactory) ListNames(state FileState) ([]string, error) {
 		}
 		for _, info := range infos {
 			if depth == 0 {
+				// Skip directories without a data file, e.g. left behind by a crash between
+				// creating the directory and moving the data file into it.
+				if _, err := os.Stat(filepath.Join(dir, info.Name(), DefaultDataFileName)); err != nil {
+					continue
+				}
 				names = append(names, info.Name())
 			} else {
 				if !info.IsDir() {
